@@ -19,7 +19,7 @@ open SaModel
 structure Ext where
   f32Str : Nat → String := fun _ => ""                   -- `f32::to_string` of a bit pattern
   f64Str : Nat → String := fun _ => ""
-  parseDate : String → R Int := fun _ => fail "ext"      -- chrono NaiveDate → days since epoch
+  parseDate : Bool → String → R Int := fun _ _ => fail "ext"   -- date string → stored value (is64 ⇒ Date64 ms, else Date32 days)
   parseTime : TimeUnit → String → R Int := fun _ _ => fail "ext"
   parseTimestamp : TimeUnit → Bool → String → R Int := fun _ _ _ => fail "ext"
   parseDuration : TimeUnit → String → R Int := fun _ _ => fail "ext"
@@ -202,15 +202,17 @@ def convLeaf (ext : Ext) (k : LeafKind) (x : SVal) : R Int :=
   | .f32, .int _ v => .ok (Float.ofInt Float.f32 v)
   | .f32, .f32 b => .ok b
   | .f32, .f64 b => .ok (Float.convert Float.f64 Float.f32 b)
+  | .f32, .char c => .ok (Float.ofInt Float.f32 c)
   | .f64, .int _ v => .ok (Float.ofInt Float.f64 v)
   | .f64, .f32 b => .ok (Float.convert Float.f32 Float.f64 b)
   | .f64, .f64 b => .ok b
+  | .f64, .char c => .ok (Float.ofInt Float.f64 c)
   | .f16, .f32 b => .ok (Float.convert Float.f32 Float.f16 b)
   | .f16, .f64 b => .ok (Float.convert Float.f64 Float.f16 b)
-  | .date32, .str s => do tryInto .i32 (← ext.parseDate s)
+  | .date32, .str s => ext.parseDate false s
   | .date32, .int .i32 v => .ok v
   | .date32, .int .i64 v => if IntTy.i32.inRange v then .ok v else fail "cannot convert to i32"
-  | .date64, .str s => do pure ((← ext.parseDate s) * 86400000)
+  | .date64, .str s => ext.parseDate true s
   | .date64, .int .i32 v => .ok v
   | .date64, .int .i64 v => .ok v
   | .time32 u, .str s => do tryInto .i32 (← ext.parseTime u s)
